@@ -68,9 +68,10 @@ type bworld struct {
 	genesis map[string]*big.Int // denom -> funded at genesis
 	credits map[string][]string // prophecy id -> observed credits "recv|denom|amt"
 	credAll []string            // all observed credits "denom|amt"
-	minted  []string            // denominations observed entering the supply through the credit of a lock claim
+	minted  []string            // the harness's own ledger of pegged tokens: listed by the genesis (pegset) or observed entering the supply through the credit of a lock claim
 	msgClaims map[string][]string // prophecy id -> "validator=content" of every accepted claim MESSAGE, content from the message's own fields
 	storeFirst string            // digest of the oracle + ethbridge store bytes at the end of the first execution of the current history
+	reported  map[string]string // prophecy id -> the final status (2 SUCCESS / 3 FAILED) a claim message reported for it
 	wlOps     []string          // whitelist operations that took effect: "set:0.1.1.2", "add:v", "remove:v" (a ledger of results observed)
 	finalSeen map[string]string // prophecy id -> its dump when it was first observed finalised (SUCCESS / FAILED)
 	finalIds  []string
@@ -120,6 +121,7 @@ func (w *bworld) reset() {
 	w.minted = nil
 	w.finalSeen = map[string]string{}
 	w.wlOps = nil
+	w.reported = map[string]string{}
 	w.msgClaims = map[string][]string{}
 	w.finalIds = nil
 	w.locks = nil
@@ -677,6 +679,24 @@ func (x *bexec) exec(line string) {
 	case "unjail":
 		ans := w.unjail(atoi(t[1]))
 		x.emit(line, ans, "unjail."+ans, ans == "ok")
+	case "pegset":
+		// the ethbridge genesis names peggy tokens, in the order they arrived on the exporting chain: the real
+		// ethbridge.InitGenesis on the block context; the listed tokens join the harness's own ledger of pegged tokens
+		l := strings.Split(t[1], ",")
+		ans := protectStr(func() string {
+			ethbridge.InitGenesis(w.ctx, w.app.EthbridgeKeeper, ethtypes.GenesisState{PeggyTokens: l})
+			return "ok"
+		}, "panic")
+		for _, d := range l {
+			seen := false
+			for _, m := range w.minted {
+				seen = seen || m == d
+			}
+			if !seen {
+				w.minted = append(w.minted, d)
+			}
+		}
+		x.emit(line, ans, "pegset."+ans, true)
 	case "stakeend":
 		ans := w.stakeEnd()
 		x.emit(line, ans, "stakeend."+ans, true)
@@ -978,11 +998,27 @@ func (x *bexec) execTx(line, kind string, t []string) {
 		pb, foundB := w.prophecy(id)
 		peggyB := append([]string{}, w.app.EthbridgeKeeper.GetPeggyToken(w.ctx).Tokens...)
 		msg := ethtypes.NewMsgCreateEthBridgeClaim(c)
-		cls, _ := w.deliver(&msg)
+		ledgerB := w.reported[id] // the status an earlier claim message REPORTED for this prophecy ("" = none yet)
+		cls, cevs := w.deliver(&msg)
 		pa, foundA := w.prophecy(id)
 		ans := cls
+		reported := ""
 		if cls == "ok" {
-			ans = "ok " + statusNum(pa.Status.Text)
+			// the status the message itself reports (its prophecy_status event), not a read-back of the store
+			reported = "0"
+			for _, e := range cevs {
+				if e.Type == ethtypes.EventTypeProphecyStatus {
+					switch evAttr(e, ethtypes.AttributeKeyStatus) {
+					case oracletypes.StatusText_STATUS_TEXT_PENDING.String():
+						reported = "1"
+					case oracletypes.StatusText_STATUS_TEXT_SUCCESS.String():
+						reported = "2"
+					case oracletypes.StatusText_STATUS_TEXT_FAILED.String():
+						reported = "3"
+					}
+				}
+			}
+			ans = "ok " + reported
 		}
 		hcls := "claim." + ans
 		if cls == "ok" && pa.Status.Text == oracletypes.StatusText_STATUS_TEXT_SUCCESS {
@@ -993,6 +1029,22 @@ func (x *bexec) execTx(line, kind string, t []string) {
 		}
 		x.emit(line, ans, hcls, cls == "ok")
 		x.chkClaim(t, id, pb, foundB, pa, foundA, cls, balB, supB)
+		// C05 finality against the ledger of REPORTED statuses
+		storedNow := "0"
+		if foundA {
+			storedNow = statusNum(pa.Status.Text)
+		}
+		if reported != "" {
+			x.emit(fmt.Sprintf("chk statusread tag=oracle.status.reported-equals-stored reported=%s stored=%s", reported, storedNow), "true", "chk.statusread", reported != "1")
+		}
+		if ledgerB == "2" || ledgerB == "3" {
+			balA2, supA2 := w.bankView()
+			x.emit(fmt.Sprintf("chk finledger tag=oracle.finality.against-reported-status reported=%s res=%s stored=%s balb=%s bala=%s supb=%s supa=%s",
+				ledgerB, cls, storedNow, dumpMap(balB), dumpMap(balA2), dumpMap(supB), dumpMap(supA2)), "true", "chk.finledger", true)
+		}
+		if (reported == "2" || reported == "3") && ledgerB != "2" && ledgerB != "3" {
+			w.reported[id] = reported
+		}
 		// C06: what was credited against the contents of the accepted claim messages (not the stored final claim)
 		if cls == "ok" {
 			v, _ := splitSp(t[0])
